@@ -391,7 +391,16 @@ func mapKeyLess(a, b reflect.Value) bool {
 			return a.Float() < b.Float()
 		}
 	}
-	return fmt.Sprint(a) < fmt.Sprint(b)
+	return mapKeyText(a) < mapKeyText(b)
+}
+
+// mapKeyText is the printed form a key is ordered by. It is made by the guarded
+// printer: a key may point to data that contains itself.
+func mapKeyText(k reflect.Value) string {
+	if !k.IsValid() || !k.CanInterface() {
+		return ""
+	}
+	return helpers.Sprint(k.Interface())
 }
 
 // splitPathImpl is the actual implementation of path splitting.
